@@ -22,6 +22,8 @@ def _apply_projs(T, t, proj, depth):
             t = ("idx", t, T.of_local(p["local"], (), depth + 1))
         elif p["k"] == "constindex":
             t = ("idx", t, ("const", p.get("offset")))
+        elif p["k"] == "downcast" and p.get("name"):
+            t = ("proj", t, "downcast:" + str(p["name"]))
         else:
             t = ("proj", t, p["k"])
     return t
@@ -77,6 +79,8 @@ class Terms:
             inner = self.of_local(pl["l"], pl["p"], depth + 1)
         elif k == "unop" and rv["op"] == "Neg":
             inner = ("neg", self.of_operand(rv["a"], depth + 1))
+        elif k == "unop" and rv["op"] == "Not":
+            inner = ("call", "not", self.of_operand(rv["a"], depth + 1))
         elif k == "aggregate" and proj and proj[0]["k"] == "field" and isinstance(proj[0].get("i"), int) and proj[0]["i"] < len(rv.get("ops", [])) \
                 and rv.get("agg") in ("tuple", "array"):
             # a field of a tuple literal is the operand it was built from
